@@ -19,21 +19,16 @@ import LA.Model.Filters
 namespace LA.C01
 open LA.RA LA.C08
 
-/-- State after a sequence of interface operations. -/
-def runOps : State → List Op → State
-  | s, [] => s
-  | s, .ahead m :: ops => runOps (RA.ahead s m).2 ops
-  | s, .consume n :: ops => runOps (RA.consume s n).2 ops
-
-def OpsOk (ops : List Op) : Prop :=
-  ∀ op ∈ ops, match op with | .ahead m => m ≤ 2 ^ 62 | .consume _ => True
-
 /-- **Every reachable state satisfies the representation invariant** — for all
-sources, all skip scripts (well-behaved or not) and all call sequences. -/
+sources, all skip scripts (well-behaved or not) and all call sequences (`runOps`, `OpsOk`:
+LA/Props/C08.lean; seek requests on a source without seek callback are refused and change
+nothing). -/
 theorem interface_total (src : List (List Nat)) (t : Term) (sk : List Int) (cs : Bool) (hs : SrcOk src)
     (ops : List Op) (hops : OpsOk ops) : Inv (runOps (C05.open_ src t sk cs) ops) := by
   have h0 : Inv (C05.open_ src t sk cs) := inv_init src t sk cs hs
-  generalize C05.open_ src t sk cs = s at h0
+  have hn0 : NoSeekSkip (C05.open_ src t sk cs) := Or.inl rfl
+  have hc0 : (C05.open_ src t sk cs).canSeek = false := rfl
+  generalize C05.open_ src t sk cs = s at h0 hn0 hc0
   induction ops generalizing s with
   | nil => exact h0
   | cons op ops ih =>
@@ -41,8 +36,57 @@ theorem interface_total (src : List (List Nat)) (t : Term) (sk : List Int) (cs :
     cases op with
     | ahead m =>
       have hm : m ≤ 2 ^ 62 := hops (.ahead m) (by simp)
-      exact ih hops' _ (ahead_refines s m h0 hm).1
-    | consume n => exact ih hops' _ (consume_suffix s n h0).1
+      have hst := ahead_static s m
+      exact ih hops' _ (ahead_refines s m h0 hm).1 (noSeekSkip_of_static hst hn0) (by rw [hst.canSeek]; exact hc0)
+    | consume n =>
+      have hst := (consume_static s n).1
+      exact ih hops' _ (consume_suffix s n h0 hn0).1 (noSeekSkip_of_static hst hn0) (by rw [hst.canSeek]; exact hc0)
+    | seek off w =>
+      obtain ⟨_, c2⟩ := seek_refused_untouched s off w (Or.inr (Or.inl hc0))
+      simp only [runOps, c2]
+      exact ih hops' s h0 hn0 hc0
+
+/-- **The same for seekable multi-node sources**, for every skip script and every seek
+callback script (errors and block-aligned landings at any invocation) and every sequence of
+peeks, consumes and seeks in which the client does not read between a failed seek and the next
+successful one: the `dataset[]` bookkeeping stays sound, no index leaves `dataset[]`
+(`seek_in_bounds`), and whenever the filter is in step with its source the representation
+invariant holds — in particular after every successful seek. -/
+theorem interface_total_seek (nodes : List (List Nat)) (blk : Nat → Nat → Nat → Nat) (t : Term) (sk : List Int)
+    (cs : Bool) (seeks : List Int) (hne : nodes ≠ []) (ops : List Op) (hops : OpsOk ops)
+    (hsafe : opsSafe { openSeekable nodes blk t sk cs with seeks := seeks } true ops = true) :
+    CacheOk (runOps { openSeekable nodes blk t sk cs with seeks := seeks } ops) ∧
+    (syncAfter { openSeekable nodes blk t sk cs with seeks := seeks } true ops = true →
+      Inv (runOps { openSeekable nodes blk t sk cs with seeks := seeks } ops)) := by
+  have hi := inv_open nodes blk t sk cs
+  have hc := cacheOk_open nodes blk t sk cs hne
+  have hr := remaining_open nodes blk t sk cs hne
+  have hj : SeekableInv nodes.flatten { openSeekable nodes blk t sk cs with seeks := seeks } true :=
+    { bufLt := hi.bufLt, cache := cacheOk_congr (s := openSeekable nodes blk t sk cs) rfl rfl rfl hc,
+      seeker := rfl, bytes := rfl, noSeekSkip := Or.inl rfl,
+      sync := fun _ => ⟨{ cbIn := hi.cbIn, bufLt := hi.bufLt, clientEq := hi.clientEq, prov := hi.prov,
+                          eofSrc := hi.eofSrc, srcOk := hi.srcOk, laterOk := hi.laterOk },
+                        0, by show remaining (openSeekable nodes blk t sk cs) = _; rw [hr]; simp⟩ }
+  have := (ops_invariant nodes.flatten _ true ops hj hsafe hops).2
+  exact ⟨this.cache, fun h => (this.sync h).1⟩
+
+/-- **`__archive_read_filter_seek` never indexes outside `client.dataset[]`**: the model returns
+the distinguished status `oob` for an out-of-range index; with sound bookkeeping (one entry per
+node) and a behaving seek callback no request of any kind ever produces it. -/
+theorem seek_in_bounds (s : State) (off : Int) (w : Whence) (hc : CacheOk s) (hs : s.hasSeeker = true)
+    (hcs : s.canSeek = true) (hf : s.fatal = false) (hbl : s.bufSize < 2 ^ 63) (hq : SeeksOk s.seeks) :
+    (RA.seek s off w).1 ≠ oob := by
+  have h := seek_spec s off w hc hs hcs hf hbl
+  cases ht : targetOf s off w with
+  | none => rw [ht] at h; simp only [] at h; rw [h]; show (-30 : Int) ≠ -99; decide
+  | some t =>
+    rw [ht] at h
+    simp only [] at h
+    rcases h with ⟨_, p2, p3⟩ | ⟨_, p⟩
+    · obtain ⟨_, p4⟩ := p3 hq
+      unfold oob
+      split at p4 <;> omega
+    · exact absurd hq p
 
 /-- Where a returned window lives. -/
 theorem aheadLoop_shape (s : State) (min : Nat) (w : List Nat) (fc : Bool)
@@ -86,10 +130,15 @@ theorem ahead_never_stuck (s : State) (min : Nat) (hi : Inv s) (hmin : min ≤ 2
 
 /-- Non-vacuity of `interface_total` / `window_in_bounds`: a two-block source and
 a peek that straddles the block border. -/
-example : SrcOk [[1, 2], [3, 4, 5]] ∧ OpsOk [.ahead 3, .consume 2, .ahead 3] := by
+example : SrcOk [[1, 2], [3, 4, 5]] ∧ OpsOk [.ahead 3, .consume 2, .seek 0 .set, .ahead 3] := by
   constructor
   · simp [SrcOk]
-  · intro op h; simp at h; rcases h with rfl | rfl | rfl <;> simp
+  · intro op h; simp at h; rcases h with rfl | rfl | rfl | rfl <;> simp
+
+/-- Non-vacuity of `interface_total_seek`: three nodes, a seek callback that fails at its third
+invocation, a history with a refused seek followed by a good one and reads. -/
+example : opsSafe { openSeekable [[1, 2, 3], [], [4, 5, 6, 7]] (fun _ _ _ => 2) .eof [] true with seeks := [0, 0, -1] }
+    true [.seek 9 .set, .seek 5 .set, .seek 1 .other] = true := by decide
 
 open LA.Filters in
 theorem chooseLoop_count (bid init verify : Nat → Bool) (left n : Nat) :
